@@ -124,7 +124,7 @@ inductive Call
   | renameVar (v : VarArg) (nameBad inUse longer : Bool)
   | renameDim (nameBad dimBad inUse longer : Bool)
   -- blocking data access (var/var1/vara/vars/varm/varn/vard/mput families share sanity_check)
-  | rw (isPut coll : Bool) (v : VarArg) (text coordBad : Bool)
+  | rw (isPut coll : Bool) (v : VarArg) (text coordBad : Bool) (varn : Bool)   -- varn: the put/get_varn family
   -- nonblocking
   | post (k : PostKind) (v : VarArg) (text coordBad : Bool)
   | wait (coll zero : Bool)                    -- num_reqs = NC_REQ_ALL, or 0 if `zero`
@@ -143,16 +143,23 @@ inductive Call
   | inqBuf                                     -- inq_buffer_usage / inq_buffer_size
 deriving DecidableEq, Repr, Inhabited
 
-/-- the only thing the model knows about the *source text* rather than about a run:
-    does `ncmpi_fill_var_rec` return the error found by its own tests before calling the driver?
-    (At the pinned commit it does not: the `if (err != NC_NOERR) return err;` every other
-    dispatcher has after `err_check:` is missing.)  The check reads this from the scratch tree. -/
+/-- Two facts about the run that are not part of the file's state:
+    * `fillChecksErr` — about the *source text*: does `ncmpi_fill_var_rec` return the error found by
+      its own tests before calling the driver?  (At the pinned commit it does not: the
+      `if (err != NC_NOERR) return err;` every other dispatcher has after `err_check:` is missing.
+      With PNETCDF_SAFE_MODE=1 the MPI_Allreduce branch returns it.)  The check calibrates this
+      by one call on the real library.
+    * `multi` — the communicator has more than one process.  Then a *collective* blocking call whose
+      argument tests fail does not return at once but takes part in the collective I/O with a
+      zero-length request (`reqMode |= NC_REQ_ZERO`). -/
 structure Cfg where
   fillChecksErr : Bool
+  multi : Bool := false
 deriving DecidableEq, Repr, Inhabited
 
-def Cfg.pinned : Cfg := ⟨false⟩
-def Cfg.repaired : Cfg := ⟨true⟩
+def Cfg.pinned : Cfg := ⟨false, false⟩
+def Cfg.repaired : Cfg := ⟨true, false⟩
+def Cfg.pinnedMulti : Cfg := ⟨false, true⟩
 
 /-- result of one API call: new state, returned code, `wr` = a function that writes file bytes
     was reached (header, numrecs or data), `del` = the file was unlinked, `val` = inquiry result -/
@@ -248,6 +255,15 @@ def wait (coll zero : Bool) (s : State) : Out :=
   else if !coll && zero then ret s .noerr
   else if zero then ret s .noerr                             -- req_commit with nothing to do
   else { st := cancelAll s, err := .noerr, wr := s.nPut > 0 } -- req_commit of every pending request
+
+/-- ncmpio_wait(ncp, 1, {NC_REQ_NULL}, NULL, NC_REQ_COLL) in collective data mode, as ncmpio_put/get_varn
+    calls it for a zero-length participation: extract_reqs takes its shortcuts on the *count* alone —
+    `numGetReqs == 0 && num_reqs == numLeadPutReqs` "is the same as NC_PUT_REQ_ALL" (and symmetrically
+    for gets) — so the caller's single pending request is completed although its id was not given -/
+def waitNull (s : State) : Out :=
+  if s.nGet == 0 && s.nPut == 1 then { st := { s with nPut := 0, nBput := 0 }, err := .noerr, wr := true }
+  else if s.nPut == 0 && s.nGet == 1 then { st := { s with nGet := 0 }, err := .noerr }
+  else ret s .noerr
 
 /-- ncmpio_cancel: no mode test (nonblocking APIs may be used in define mode since 1.7.0) -/
 def cancel (zero : Bool) (s : State) : Out :=
@@ -434,11 +450,17 @@ def step (cfg : Cfg) (s : State) (c : Call) : Out :=
     else if dimBad then ret s .ebaddim
     else if inUse then ret s .enameinuse
     else Drv.rename longer s
-  | .rw isPut coll v text coordBad =>
-    let e := sanityCheck s.d isPut true coll v text
-    if e != .noerr then ret s e
-    else if coordBad then ret s .einvalcoords               -- check_start_count_stride
-    else { st := s, err := .noerr, wr := isPut }
+  | .rw isPut coll v text coordBad varn =>
+    let e0 := sanityCheck s.d isPut true coll v text
+    -- check_start_count_stride only if the sanity check passed
+    let e := if e0 != .noerr then e0 else if coordBad then .einvalcoords else .noerr
+    if e == .noerr then { st := s, err := .noerr, wr := isPut }
+    else if !coll then ret s e                               -- independent API: return now
+    else if e == .eperm || e == .eindefine || e == .eindep || e == .enotindep then ret s e   -- fatal
+    else if !cfg.multi then ret s e                          -- nprocs == 1: return err
+    -- reqMode |= NC_REQ_ZERO; the driver is called; `(err != NC_NOERR) ? err : status`
+    else if varn then { Drv.waitNull s with err := e }       -- ncmpio_put/get_varn: ncmpio_wait(1, {NC_REQ_NULL})
+    else ret s e                                             -- ncmpio_getput_zero_req: collective MPI calls only
   | .post k v text coordBad =>
     let e := sanityCheck s.d (k != .iget) false false v text
     if e != .noerr then ret s e
